@@ -1,5 +1,6 @@
 mod util;
 mod p_c13;
+mod p_c25;
 mod p_c16;
 mod p_c28;
 mod p_c30;
@@ -34,6 +35,7 @@ use util::Opts;
 
 /// Finite tables read out of the compiled code (DESIGN.md 2.1).
 fn reflect_all(out: &std::path::Path) {
+    p_c25::reflect(out);
     p_c28::reflect(out);
     p_c23::reflect(out);
     p_c15::reflect(out);
@@ -61,6 +63,8 @@ fn main() {
     util::silence_panics();
     match a[1].as_str() {
         "c13" => p_c13::run(&o),
+        "c25t" => p_c25::run_cells(&o),
+        "c25" => p_c25::run(&o),
         "c18" => p_c16::run(&o, 18),
         "c17" => p_c16::run(&o, 17),
         "c16" => p_c16::run(&o, 16),
